@@ -132,8 +132,15 @@ func (g *gen) value(depth int) *V {
 		}
 		return h
 	case 14:
-		if g.r.Bool() {
+		switch g.r.Intn(3) {
+		case 0:
 			return g.ptrTaggableHeld()
+		case 1:
+			l := g.local()
+			if g.r.Bool() {
+				return &V{K: "ptr", Elem: l}
+			}
+			return l
 		}
 		return g.unexp()
 	default:
@@ -144,7 +151,52 @@ func (g *gen) value(depth int) *V {
 // slice of structs / pointers to structs / maps / taggable maps / taggable structs (homogeneous element type)
 func (g *gen) slice(depth int) *V {
 	var shape *V
-	switch g.r.Intn(7) {
+	switch g.r.Intn(16) {
+	case 11:
+		shape = g.tmap(0) // a pointer-receiver Taggable map by value: an ordinary map there
+		shape.K = "ptmap"
+	case 12:
+		shape = g.ptrTaggable() // pointer-receiver Taggable (map or struct type) ...
+		if g.r.Bool() {
+			shape = &V{K: "ptr", Elem: shape} // ... behind a pointer: honoured
+		}
+	case 13:
+		shape = g.mapv(depth - 1) // a typed map (map[string]string, map[string]S, ...) or an interface-valued one
+		if g.r.Bool() {
+			shape = &V{K: "ptr", Elem: shape}
+		}
+	case 14:
+		// a slice of slices: [][]string-like ([]strs), [][]S, [][]*S - the filter does not look into the inner slices
+		switch g.r.Intn(3) {
+		case 0:
+			shape = &V{K: "strs", Cs: []int{g.can(), g.can()}}
+			if g.r.Bool() {
+				shape.K = "bytess"
+			}
+		case 1:
+			in := g.strct(0)
+			shape = &V{K: "slice", Elem: in, Elems: []*V{in}}
+		default:
+			in := &V{K: "ptr", Elem: g.strct(0)}
+			shape = &V{K: "slice", Elem: in, Elems: []*V{in, g.cloneFresh(in)}}
+		}
+	case 15:
+		shape = &V{K: "ptr", Elem: g.unexp()}
+	case 7:
+		shape = &V{K: "ptr", Elem: g.tmap(depth - 1)} // []*TaggableMap
+	case 8:
+		t := g.tmap(0)
+		t.K = "ptmap"
+		shape = &V{K: "ptr", Elem: t} // pointer-receiver Taggable map behind a pointer
+	case 9:
+		m := g.mapv(depth - 1)
+		m.Iface = true
+		shape = &V{K: "ptr", Elem: m} // []*map[string]interface{}
+	case 10:
+		shape = g.local()
+		if g.r.Bool() {
+			shape = &V{K: "ptr", Elem: shape}
+		}
 	case 0, 1:
 		shape = g.strct(depth - 1)
 	case 2:
@@ -458,6 +510,33 @@ func (g *gen) ptrTaggableHeld() *V {
 	}
 }
 
+// one of the same-named local struct types: "main.payload" (LocalA, LocalB, LocalC) and "main.record" (LocalD, LocalE)
+func (g *gen) local() *V {
+	return g.localOf([]string{"LocalA", "LocalB", "LocalC", "LocalD", "LocalE"}[g.r.Intn(5)])
+}
+
+func (g *gen) localOf(name string) *V {
+	strs := func(n int) *V {
+		v := &V{K: "strs"}
+		for ; n > 0; n-- {
+			v.Cs = append(v.Cs, g.can())
+		}
+		return v
+	}
+	s := func() *V { return &V{K: "str", C: g.can()} }
+	switch name {
+	case "LocalA":
+		return &V{K: "hand", Hand: name, Fields: []Field{{Name: "Name", Tag: sp("public"), V: s()}, {Name: "Token", Tag: sp("secret"), V: s()}, {Name: "Note", Tag: sp("sensitive"), V: strs(2)}}}
+	case "LocalB":
+		return &V{K: "hand", Hand: name, Fields: []Field{{Name: "Name", Tag: sp("secret"), V: s()}, {Name: "Token", Tag: sp("public"), V: s()}, {Name: "Note", Tag: sp("public"), V: strs(2)}}}
+	case "LocalC":
+		return &V{K: "hand", Hand: name, Fields: []Field{{Name: "Name", Tag: sp("sensitive,hmac-sha256"), V: s()}, {Name: "Token", V: s()}, {Name: "Extra", Tag: sp("public"), V: s()}}}
+	case "LocalD":
+		return &V{K: "hand", Hand: name, Fields: []Field{{Name: "Key", Tag: sp("public"), V: s()}, {Name: "Note", Tag: sp("public"), V: strs(2)}, {Name: "Secret", Tag: sp("secret"), V: s()}}}
+	}
+	return &V{K: "hand", Hand: "LocalE", Fields: []Field{{Name: "Key", Tag: sp("secret"), V: s()}, {Name: "Note", V: strs(1)}, {Name: "Secret", Tag: sp("public"), V: s()}, {Name: "Extra", Tag: sp("sensitive"), V: &V{K: "bytes", C: g.can()}}}}
+}
+
 func (g *gen) unexp() *V {
 	return &V{K: "hand", Hand: "UnexpA", Fields: []Field{
 		{Name: "hidden", V: &V{K: "int", I: int64(g.r.Intn(3))}}, // 0 now and then: nothing to lose
@@ -506,7 +585,11 @@ func (g *gen) payload(depth int) (string, *V) {
 	case 0, 1, 2, 3, 4, 5, 6:
 		return "val", &V{K: "ptr", Elem: g.strct(depth)}
 	case 7, 8:
-		return "val", g.slice(depth)
+		sl := g.slice(depth)
+		if g.r.Chance(1, 5) {
+			return "val", &V{K: "ptr", Elem: sl} // a pointer to the slice
+		}
+		return "val", sl
 	case 9:
 		v := &V{K: "strs"}
 		if g.r.Bool() {
@@ -532,6 +615,9 @@ func (g *gen) payload(depth int) (string, *V) {
 	case 17, 18:
 		return "val", &V{K: "ptr", Elem: g.hand(depth)}
 	case 19:
+		if g.r.Chance(2, 3) {
+			return "val", &V{K: "ptr", Elem: g.local()}
+		}
 		return "val", &V{K: "ptr", Elem: g.unexp()}
 	case 20:
 		return "val", g.ewi(depth)
